@@ -18,7 +18,7 @@ def weave_instances(tier, ob, prefix):
                 for pla, plb in ((2, 2), (3, 2), (2, 3), (3, 3), (4, 2), (4, 3), (5, 2)):
                     for pl in range(max(pla, plb), pla + plb + 1):
                         if pl <= 6:
-                            tuples.append((na, nb, pla, plb, pl, min(4, max(pla, plb))))
+                            tuples.append((na, nb, pla, plb, pl, min(5, max(pla, plb))))   # a single-member node is a bare sequence: lmax must reach its row length
     for na, nb, pla, plb, pl, lmax in tuples:
         nbytes = (na + nb) * (lmax + 2) + pl
         out.append(Inst(ob=ob, name="%s_a%d_b%d_pla%d_plb%d_pl%d" % (prefix, na, nb, pla, plb, pl), harness="c01_weave.c",
@@ -66,7 +66,9 @@ def doalign_instances(tier, ob, prefix):
           pla, plb = (la, lb) if la < lb else (lb, la)
       paths = valid_paths(pla, plb)
       if tier != "quick":
-          paths = paths[::max(1, len(paths) // 4)][:4]
+          # mixed shapes (a group merged with a single sequence) needed > 1200 s per path in the first complete thorough run:
+          # two paths each with a longer cap; same-kind shapes keep four
+          paths = paths[::max(1, len(paths) // 4)][:(4 if (ga > 1) == (gb > 1) else 2)]
       if tier == "quick":
           paths = paths[:1]   # quick: one path per size tuple, last-task variant (no update_n): the 900 s budget of the quick tier
       for pi, path in enumerate(paths):
@@ -82,7 +84,7 @@ def doalign_instances(tier, ob, prefix):
                                                                ("add_gap_info_to_path_n", r"for \( a = 0", max(la, lb) + 2), ("update_gaps", r"for \(", la + lb + 3),
                                                                ("make_profile_n", r"while\(i--\)", max(la, lb) + 2), ("set_gap_penalties_n", r"while\(i--\)", max(la, lb) + 3),
                                                                ("init_alnmem", r"i  < g", la + lb + 4), ("mirror_path_n", r"for\(", la + lb + 4), ("aln_runner", r"i <= 4", 6)],
-                        nb=40, ni=1, nf=3, timeout=1200, mem_gb=4,
+                        nb=40, ni=1, nf=3, timeout=(1200 if (ga > 1) == (gb > 1) else 3000), mem_gb=4,
                         funcs=["do_align", "make_profile_n", "set_gap_penalties_n", "update_n", "add_gap_info_to_path_n", "mirror_path_n", "make_seq", "update_gaps", "init_alnmem"],
                         cost=(la + lb) * (ga + gb) * 10,
                         bound="node a: %d member(s) / length %d, node b: %d member(s) / length %d, %s task; DP answer = one enumerated valid path; gap vectors, residues and stale output-node state symbolic" % (ga, la, gb, lb, "last" if last else "inner"),
